@@ -259,11 +259,19 @@ VTYPES = {"i1": ("I8", -128, 127), "u1": ("U8", 0, 255), "i2": ("I16", -32768, 3
           "i4": ("I32", -2 ** 31, 2 ** 31 - 1), "u4": ("U32", 0, 2 ** 32 - 1), "i8": ("I64", -2 ** 63, 2 ** 63 - 1)}
 
 
+# netCDF default fill values: a value equal to the default fill value of its variable's type is, by
+# the netCDF conventions, a value that was never written, and both cfdm and netCDF4-python read it as
+# missing (property C07).  A count / index / list variable therefore never holds that value here.
+DEFAULT_FILL = {"i1": -127, "u1": 255, "i2": -32767, "u2": 65535, "i4": -2147483647, "u4": 4294967295,
+                "i8": -9223372036854775806}
+
+
 def pick_vdtype(rng, c):
-    """integer type of the count / index / list variable: any type that holds its values"""
+    """integer type of the count / index / list variable: any type that holds its values and whose
+    default fill value is not among them"""
     vals = [v for k in ("count", "index", "list") if k in c for v in c[k]]
     lo, hi = min(vals, default=0), max(vals, default=0)
-    cands = [t for t, (_, a, b) in VTYPES.items() if a <= lo and hi <= b]
+    cands = [t for t, (_, a, b) in VTYPES.items() if a <= lo and hi <= b and DEFAULT_FILL[t] not in vals]
     return rng.choice(cands)
 
 
@@ -448,6 +456,9 @@ def gen_contig_wide(rng, big=False):
         counts = [0 if rng.random() < 0.2 else rng.randrange(hi // 3, hi // 2 + hi // 4) for _ in range(nrows)]
         while sum(counts) <= hi:
             counts[rng.randrange(nrows)] = rng.randrange(hi // 2, hi + 1)
+    counts = [x - 1 if x == DEFAULT_FILL[vdt] else x for x in counts]
+    if sum(counts) <= hi:
+        return gen_contig_wide(rng, big)
     rng.shuffle(counts)
     n = sum(counts)
     w = max(counts) + rng.choice([0, 1])
@@ -679,22 +690,33 @@ def gen_multi(rng):
     different count / index variables"""
     k = rng.choice([2, 2, 3])
     r = rng.random()
-    members = []
-    for n in range(k):
-        # one featureType per file (CF 9.4): all members timeSeriesProfile, or all timeSeries
-        m = gen_compress3(rng) if r < 0.35 else gen_compress2(rng)
-        m["post"] = None
-        m["bounds"] = False
-        members.append(m)
-    if rng.random() < 0.3:
+
+    def fresh():
+        out = []
+        for n in range(k):
+            # one featureType per file (CF 9.4): all members timeSeriesProfile, or all timeSeries
+            m = gen_compress3(rng) if r < 0.35 else gen_compress2(rng)
+            m["post"] = None
+            m["bounds"] = False
+            m["idx"] = None
+            out.append(m)
+        return out
+    members = fresh()
+    if rng.random() < 0.25:
+        # fields whose count / index variables coincide although they must not be shared (equal index
+        # variables over different numbers of features; equal count variables under different index variables)
+        for _ in range(60):
+            cand = fresh()
+            if harmful_sharing(cand):
+                members = cand
+                break
+    elif rng.random() < 0.3:
         # the same shape and counts twice: the count / index variables are equal
         twin = json.loads(json.dumps(members[0]))
         twin["rows"] = json.loads(json.dumps(twin["rows"]).replace("null", "null"))
         members[1] = twin
     for m in members:
         m["dtype"] = rng.choice(["f8", "f4", "i4"])
-    if harmful_sharing(members) and rng.random() < 0.9:
-        return gen_multi(rng)
     return {"k": "multi", "tag": "valid", "members": members, "dtype": "f8", "shape": [k], "write": True}
 
 
@@ -1434,6 +1456,8 @@ def oracle_multi(chk, c, r):
 
     def bad(sig, what, expected=None, observed=None):
         if harm and sig != "multi:driver":
+            # equal count / index variables that must not be shared (repaired: c3f0f59, 2744242 and
+            # handoff/C06-fix3-1.diff); kept as a separate signature so that a regression is named
             sig = "multi:equal-count-or-index-variables-shared-across-fields"
         chk.fail("property", sig, what, {"input": c_public(c), "expected": expected, "observed": observed})
         return True
@@ -1578,6 +1602,18 @@ CORPUS = [
      "b": {"k": "gathered", "tag": "valid", "shape": [2, 3], "cshape": [4], "ldims": [], "dims": [2, 3], "tdims": [],
            "list": [5, 3, 2, 0], "blocks": [[[1], [2], [3], [4]]], "t": 1, "cdim": 0, "cdims": [0, 1], "dtype": "f8",
            "vdtype": "i4", "idx": None, "assign": None, "write": False}},
+    # fix3-1: two indexed contiguous fields with equal count variables but different index variables
+    {"k": "multi", "tag": "valid", "dtype": "f8", "shape": [2], "write": True, "members": [
+        {"k": "compress", "tag": "valid", "method": "indexed_contiguous", "shape": [2, 1, 1], "rows": [[[1]], [[2]]],
+         "auxr": None, "otherr": None, "aux2r": None, "bounds": False, "dtype": "f8", "write": False, "post": None},
+        {"k": "compress", "tag": "valid", "method": "indexed_contiguous", "shape": [1, 2, 1], "rows": [[[None], [2]]],
+         "auxr": [[[100], [101]]], "otherr": None, "aux2r": None, "bounds": False, "dtype": "f8", "write": False, "post": None}]},
+    # c3f0f59: two indexed fields with equal index variables but different numbers of features
+    {"k": "multi", "tag": "valid", "dtype": "f8", "shape": [2], "write": True, "members": [
+        {"k": "compress", "tag": "valid", "method": "indexed", "shape": [3, 2], "rows": [[1, 2], [3, None], [None, None]],
+         "auxr": None, "otherr": None, "aux2r": None, "bounds": False, "dtype": "f8", "write": False, "post": None},
+        {"k": "compress", "tag": "valid", "method": "indexed", "shape": [2, 2], "rows": [[4, 5], [6, None]],
+         "auxr": None, "otherr": None, "aux2r": None, "bounds": False, "dtype": "f8", "write": False, "post": None}]},
     # open: compress, assign to a construct spanning the field's axes, write
     {"k": "compress", "tag": "valid", "method": "contiguous", "shape": [2, 3],
      "rows": [[1, 2, None], [3, None, None]], "auxr": [[101, 102, None], [103, None, None]], "otherr": None,
@@ -1790,6 +1826,8 @@ def run(chk, model_ok):
         "zero_sample_files": sum(1 for i, c, r in done if c.get("write") and c["k"] == "compress"
                                  and all(v is None for v in flat_nested(c["rows"], len(c["shape"])))),
         "files_with_several_compressed_fields": sum(1 for i, c, r in done if c["k"] == "multi"),
+        "files_with_coinciding_count_or_index_variables_that_must_not_be_shared": sum(
+            1 for i, c, r in done if c["k"] == "multi" and harmful_sharing(c["members"])),
         "files_written_with_netCDF4_and_read_with_both_backends": sum(1 for i, c, r in done if c.get("rawfile")),
         "count_sum_beyond_range_of_count_type": sum(1 for i, c, r in done if c.get("wide")),
         "count_index_list_variable_types": {t: sum(1 for i, c, r in done if c.get("vdtype") == t) for t in VTYPES},
@@ -1802,7 +1840,9 @@ def run(chk, model_ok):
         "distinct_nontrivial": len(distinct),
         "rule": "a ragged contiguous case is non-trivial when it has samples and a zero or unequal counts; ragged indexed / "
                 "indexed contiguous when it has at least two samples; gathered when the list is unsorted or sparse; "
-                "a compress case when the field has both missing and present values; distinct = distinct canonical JSON of the input",
+                "a compress case when the field has both missing and present values; distinct = distinct canonical JSON of the input; "
+                "count / index / list variables take every integer type that holds their values, except that they never hold "
+                "the netCDF default fill value of their own type (read as missing by the netCDF conventions, property C07)",
         "samples": samples,
         "traces_validated_against_impl": ncorr,
         "disagreements_checked": ncorr,
@@ -1830,6 +1870,9 @@ def run(chk, model_ok):
         "uncompress) is overwritten in place after it has been recorded and read again; returned arrays that are read-only "
         "cannot be overwritten and are not tested that way",
         "subspace indices are generated in range (slices, integers, integer lists); the full index semantics is property C03",
+        "a count / index / list variable never holds the netCDF default fill value of its own type (255 in an unsigned byte "
+        "variable, ...): by the netCDF conventions that is a value never written, and cfdm - like netCDF4-python - reads it as "
+        "missing (property C07), so such a file does not describe a ragged array",
         "chunked decompression (subarrays(shapes=...)) is not exercised: this cfdm version always decompresses with shapes=-1",
     ]
 
